@@ -18,7 +18,7 @@ TECHNIQUE = ('runtime monitoring: reference-model oracle (independent '
              'electron-balance rule + graph-edit applier on reference '
              'embeddings), products compared up to labelled-graph '
              'isomorphism')
-RULE = ('unimolecular rules from 21 edit templates (H abstraction, scissions, '
+RULE = ('unimolecular rules from 26 hand-written edit templates plus a systematic family (every bond edit x every bond order x C-C/C-O/C-H/O-H/O-O with balancing radical edits) (H abstraction, scissions, '
         'beta scission, 1,2-shift, recombination, bond-order increase / '
         'decrease / modify with radical compensation, dehydrogenation, set '
         'radicals) rendered with random layout, each also in unbalanced '
@@ -59,7 +59,8 @@ ANCHORS = [
 EXTRA = ['C1CC1', 'C1CCC1', 'CC1CC1', 'C1CO1', 'C=CC', 'CC=CC', 'C#CC',
          '[CH2]C[CH2]', '[CH2]CO', '[CH2]CC', 'C[CH]C', '[CH2][CH2]',
          '[CH2]C[O]', 'C[CH]O', 'CCCC', 'CC(C)C', 'CCO', 'COC', 'OCCO',
-         'C=CC=C', 'CC=O', '[CH2]C=C', 'C[CH][CH2]', '[CH2]C([CH2])C']
+         'C=CC=C', 'CC=O', '[CH2]C=C', 'C[CH][CH2]', '[CH2]C([CH2])C',
+         '[CH][CH]', 'C[C][CH]', 'OO', 'COO', 'COOC', '[CH]C[CH]']
 _pool = {}
 
 
@@ -187,7 +188,7 @@ def check_rule(ctx, ast, rng):
 def run_shard(ctx):
     r = ctx.sub_rng('c16', ctx.shard)
     n = 240 if ctx.tier == 'quick' else 3000
-    T = X.templates()
+    T = X.templates() + X.systematic_templates()
     for k in range(n):
         ast = X.gen_rule(r, unbalanced=(k % 3 == 2))
         if k < len(T) and ast['kind'] == 'balanced':
@@ -210,7 +211,7 @@ def replay(ctx, case):
         print('products:', [[Chem.MolToSmiles(p) for p in ps]
                             for ps in prods])
     # full semantic replay needs the AST: regenerate by template name
-    for desc, atoms, bonds, edits in X.templates():
+    for desc, atoms, bonds, edits in X.templates() + X.systematic_templates():
         if desc == case.get('template') and case.get('kind') == 'balanced':
             ast = {'name': 'r', 'desc': desc, 'kind': 'balanced',
                    'reactant': X.frag(atoms, bonds), 'edits': list(edits)}
@@ -221,7 +222,7 @@ def classify(v):
     return None
 
 
-LEVEL_TEXT = ('Held on every executed (rule, molecule): all 21 edit templates '
+LEVEL_TEXT = ('Held on every executed (rule, molecule): all 26 edit templates '
               'and their unbalanced variants, with random layout, on '
               'exhaustive small molecules/radicals and curated rings; '
               'acceptance is compared with an independent electron balance '
